@@ -340,6 +340,7 @@ func runC11(c *vh.Case, spec c11Spec) {
 					mmu.Unlock()
 				}
 				st, _, rbody, _ := ip.Do(ctx, "POST", "http://example.test/mcp", hdrFor(op.User, sid), []byte(body))
+				endT := now()
 				if op.Kind == "post-late" {
 					time.Sleep(2 * time.Millisecond) // let the late notification happen before the next operation
 				}
@@ -348,7 +349,7 @@ func runC11(c *vh.Case, spec c11Spec) {
 				switch cl {
 				case "ok":
 					m.inflight--
-					m.lastEnd = now()
+					m.lastEnd = endT
 					if m.alive { // it may have been closed meanwhile (DELETE / server close)
 						if op.Kind == "notify" {
 							expectStatus(i, op, st, 202)
